@@ -269,10 +269,20 @@ def gen_history(rng):
 
 
 def apply(sim, op):
+    """an operation that raises is an observation ('exc:<class>'), judged by the caller"""
+    try:
+        return _apply(sim, op)
+    except Exception as e:      # noqa
+        return 'exc:%s(%s)' % (type(e).__name__, str(e)[:80])
+
+
+def _apply(sim, op):
     k = op[0]
     if k == 'put':
         _, now, seq, log, sar = op
-        return sim.op_put(now, sim.submit(seq, log=log, extra=log + 50, sar=sar))[1]
+        # every third message carries a text as careless clients hand it over: a lone surrogate, Latin-1 and astral characters
+        text = 'x' if seq % 3 else 'cut\ud83d caf\xe9 \U0001F600'
+        return sim.op_put(now, sim.submit(seq, log=log, extra=log + 50, sar=sar, text=text))[1]
     if k == 'resp':
         _, now, seq, status, mid = op
         if status == 'nack':
@@ -309,6 +319,8 @@ def restart_case(rng, fixed=None):
                 if i == r:
                     b.reload()
                 oa, ob = apply(a, op), apply(b, op)
+                if fail is None and (oa.startswith('exc:') or ob.startswith('exc:')):
+                    fail = 'operation %d %r on a persisting correlator raised: %s' % (i, op, oa if oa.startswith('exc:') else ob)
                 if oa != ob and fail is None:
                     fail = 'operation %d %r: without restart %s, restarted before operation %d: %s' % (i, op, oa, r, ob)
                 # a new instance on the directory must hold what the live one holds
